@@ -6,8 +6,11 @@
   complex data has even length (hypothesis `cplx = true → even lengths`).
 -/
 import Scico.Proofs.FuncEval
+import Scico.Proofs.FuncEvalND
+import Scico.Proofs.FuncEvalLoss
 import Scico.Proofs.ProxCalc
 import Scico.Proofs.ProxCalcTree
+import Scico.Proofs.ProxCalcTree2
 
 namespace Scico.Props.C09
 open Scico Scico.FuncEval Scico.ProxCalc
@@ -87,14 +90,14 @@ example : huber1 (2 : ℚ) 3 = 4 := by norm_num [huber1, leR]
 
 /-! ### wrappers -/
 
-/-- for every nesting of `ScaledFunctional`, `+`, `SeparableFunctional` and `Loss`, the value
-    the model of `__call__` returns is the arithmetic combination the tree denotes
-    (`den`: `c·f(x)`, `f(x)+g(x)`, `Σ_i f_i(x_i)`, `s·f(A x − y)`), given that the base
-    functionals evaluate to their meanings -/
+/-- for every nesting of `ScaledFunctional`, `+`, `SeparableFunctional`, `Loss` and `SquaredL2Loss`, the
+    value the model of `__call__` returns is the arithmetic combination the tree denotes
+    (`den`: `c·f(x)`, `f(x)+g(x)`, `Σ_i f_i(x_i)`, `s·f(A x − y)`, `s·Σ w_i |y_i − (A x)_i|²`), given that
+    the base functionals evaluate to their meanings -/
 theorem C09_wrappers_eval (E : Env ℝ) (S : LeafSem)
     (hS : ∀ i x, E.hasEval i = true → E.eval i x = S.val i x) (t : Fn ℝ) (x : Arg ℝ) (r : ℝ)
-    (hg : Generic t) (h : eval E t x = .ok r) : r = den E S t x :=
-  eval_eq_den E S hS t x r hg h
+    (h : eval E t x = .ok r) : r = den E S t x :=
+  eval_eq_den E S hS t x r h
 
 /-- `SeparableFunctional([f₁…f_k])` denotes `Σ_i f_i(x_i)` -/
 theorem C09_separable_eval (E : Env ℝ) (S : LeafSem) (fs : List (Fn ℝ)) (bs : List (List ℝ))
@@ -134,17 +137,159 @@ example : diffAppend true [(1 : ℤ), 2, 4] = [1, 2, -3] := by decide
 example : fdAxis false [2, 3] 1 [(1 : ℤ), 2, 4, 0, 4, 1] = [1, 2, 0, 4, -3, 0] := by decide
 example : fdAxis true [2, 3] 0 [(1 : ℤ), 2, 4, 0, 4, 1] = [-1, 2, -3, 1, -2, 3] := by decide
 
+/-- **N-d arrays, every shape, every axis, both boundary modes.**  For a row-major array of shape
+    `pre ++ [n] ++ post` (`x.reshape(P, n, S)[a, c, b]` sits at flat position `(a·n + c)·S + b`) the finite
+    difference along axis `len(pre)` that the TV norms are evaluated through (model `fdAxis`, tied axis by
+    axis to `FiniteDifference`) has the shape of the input and at `(a, c, b)` equals
+    `x[a, c+1, b] − x[a, c, b]` for `c + 1 < n`, and at `c = n − 1`: `x[a, 0, b] − x[a, n−1, b]` (circular) or
+    `0` (`append=0`); equivalently, along every fibre `(a, ·, b)` it is the code-shaped 1-D difference
+    `diffAppend` of `C09_tv_difference` (append a copy, then `diff`).  (All indices are in range.) -/
+theorem C09_tv_nd {K : Type} [Field K] (circular : Bool) (pre post : List Nat) (n : Nat) (x : List K)
+    (a c b : Nat) (ha : a < size pre) (hc : c < n) (hb : b < size post) :
+    (fdAxis circular (pre ++ n :: post) pre.length x).length = size (pre ++ n :: post) ∧
+    (a * n + c) * size post + b < size (pre ++ n :: post) ∧
+    (fdAxis circular (pre ++ n :: post) pre.length x).getD ((a * n + c) * size post + b) 0 =
+      (if c + 1 < n then
+        x.getD ((a * n + (c + 1)) * size post + b) 0 - x.getD ((a * n + c) * size post + b) 0
+      else if circular then
+        x.getD ((a * n + 0) * size post + b) 0 - x.getD ((a * n + c) * size post + b) 0
+      else 0) ∧
+    (fdAxis circular (pre ++ n :: post) pre.length x).getD ((a * n + c) * size post + b) 0 =
+      (diffAppend circular (fibre n (size post) x a b)).getD c 0 :=
+  ⟨fdAxis_length _ _ _ _, by rw [size_split]; exact idx_lt ha hc hb, fdAxis_nd circular pre post n x a c b ha hc hb,
+   fdAxis_fibre circular pre post n x a c b ha hc hb⟩
+
+-- 2×3 image [[1,2,4],[0,4,1]], axis 1 (pre = [2], n = 3, post = []), position (a, c, b) = (1, 2, 0): last column
+example : (fdAxis true ([2] ++ 3 :: []) [2].length [(1 : ℚ), 2, 4, 0, 4, 1]).getD ((1 * 3 + 2) * size [] + 0) 0 = 0 - 1 := by
+  rw [(C09_tv_nd true [2] [] 3 [(1 : ℚ), 2, 4, 0, 4, 1] 1 2 0 (by decide) (by decide) (by decide)).2.2.1]
+  norm_num [size]
+-- 3-D: shape [2,2,2], axis 1, element (a,c,b) = (1,0,1): x[1,1,1] − x[1,0,1] = 8 − 6
+example : (fdAxis false [2, 2, 2] 1 [(1 : ℤ), 2, 3, 4, 5, 6, 7, 8]).getD 5 0 = 2 := by decide
+
+/-- **the TV norms are the stated norms of those differences** (any shape, any list of axes, both
+    boundary modes).  Real data: `AnisotropicTVNorm` = `L1Norm` of the stack `G x` = `Σ_axes Σ_positions |D_ax x|`;
+    `IsotropicTVNorm` = `Σ_positions sqrt(Σ_axes |D_ax x|²)`.  Complex data (`comps = [re, im]`, the
+    difference acts on both parts): the same with `|D_ax x|² = (D_ax re)² + (D_ax im)²`.  And
+    `IsotropicTVNorm` is `L21Norm(l2_axis=0)` applied to the stack of shape `len(axes) :: shape`
+    (how the code evaluates it), real or complex. -/
+theorem C09_tv_norms (circular : Bool) (shape axes : List Nat) (x re im : List ℝ) :
+    tvAniso circular shape axes [x] = l1 false (.blk (axes.map (fun ax => fdAxis circular shape ax x))) ∧
+    tvAniso circular shape axes [x] =
+      (axes.map (fun ax => ((fdAxis circular shape ax x).map (fun d => |d|)).sum)).sum ∧
+    tvAniso circular shape axes [re, im] =
+      (axes.map (fun ax => ((List.range (size shape)).map (fun i =>
+        Real.sqrt ((fdAxis circular shape ax re).getD i 0 ^ 2 + (fdAxis circular shape ax im).getD i 0 ^ 2))).sum)).sum ∧
+    tvIso circular shape axes [x] =
+      ((List.range (size shape)).map (fun i =>
+        Real.sqrt ((axes.map (fun ax => (fdAxis circular shape ax x).getD i 0 ^ 2)).sum))).sum ∧
+    tvIso circular shape axes [re, im] =
+      ((List.range (size shape)).map (fun i =>
+        Real.sqrt ((axes.map (fun ax => (fdAxis circular shape ax re).getD i 0 ^ 2
+          + (fdAxis circular shape ax im).getD i 0 ^ 2)).sum))).sum ∧
+    (axes ≠ [] → ∀ comps : List (List ℝ), tvIso circular shape axes comps =
+      l21AxesOfSq (axes.length :: shape) [0] (tvSq circular shape axes comps).flatten) :=
+  ⟨(tvAniso_real circular shape axes x).2, (tvAniso_real circular shape axes x).1,
+   tvAniso_cplx circular shape axes re im, tvIso_real circular shape axes x, tvIso_cplx circular shape axes re im,
+   fun h comps => tvIso_eq_l21 circular shape axes comps h⟩
+
+-- anisotropic TV of the 2×2 image [[1,3],[6,10]] (append=0), both axes: |5|+|7| + |2|+|4| = 18
+example : tvAniso false [2, 2] [0, 1] [[(1 : ℝ), 3, 6, 10]] = 18 := by
+  rw [(C09_tv_norms false [2, 2] [0, 1] [1, 3, 6, 10] [] []).2.1]
+  norm_num [fdAxis, size, List.range_succ]
+
+/-- a constant image has zero differences along every axis, in both boundary modes (the appended copy /
+    the wrap-around produce a zero row) -/
+theorem C09_tv_constant (circular : Bool) (pre post : List Nat) (n : Nat) (k : ℝ) (x : List ℝ)
+    (hx : ∀ i, i < size (pre ++ n :: post) → x.getD i 0 = k)
+    (a c b : Nat) (ha : a < size pre) (hc : c < n) (hb : b < size post) :
+    (fdAxis circular (pre ++ n :: post) pre.length x).getD ((a * n + c) * size post + b) 0 = 0 :=
+  fdAxis_const circular pre post n k x hx a c b ha hc hb
+
+/-- **`L21Norm(l2_axis=0)`** on an array of shape `k :: rest` (`k ≥ 1`): the group-key index arithmetic of
+    the model (`ravel ∘ dropAxes ∘ unravel`, tied numerically for every axis subset) is the documented
+    `Σ_{r < ∏ rest} sqrt( Σ_{j < k} |x[j, r]|² )` (`sq` = the `|x|²` in row-major order).  Together with
+    `ravel (unravel i) = i mod size` for every shape. -/
+theorem C09_l21_axis0 (k : Nat) (hk : 0 < k) (rest : List Nat) (sq : List ℝ) :
+    l21AxesOfSq (k :: rest) [0] sq =
+      ((List.range (size rest)).map (fun r =>
+        |Real.sqrt (((List.range k).map (fun j => sq.getD (j * size rest + r) 0)).sum)|)).sum ∧
+    (∀ (s : List Nat) (i : Nat), ravel s (unravel s i) = i % size s) :=
+  ⟨l21AxesOfSq_axis0 k hk rest sq, ravel_unravel⟩
+
+-- 2×2 array [[3,0],[4,5]] → |x|² = [9,0,16,25], l2_axis=0: sqrt(9+16) + sqrt(0+25) = 10
+example : l21Axes false [2, 2] [0] [(3 : ℝ), 0, 4, 5] = 10 := by
+  have h := (C09_l21_axis0 2 (by decide) [2] [9, 0, 16, 25]).1
+  have e : sqmags false [(3 : ℝ), 0, 4, 5] = [9, 0, 16, 25] := by norm_num [sqmags]
+  rw [l21Axes, e, h]
+  have h25 : Real.sqrt 25 = 5 := by
+    rw [show (25 : ℝ) = 5 ^ 2 by norm_num]; exact Real.sqrt_sq (by norm_num)
+  norm_num [size, List.range_succ, h25]
+
+/-- `L21Norm.__call__` accepts a block argument only with `l2_axis=None` (`ValueError` otherwise) and then
+    follows the block-wise rule of `C09_l21_blockwise` -/
+theorem C09_l21_call (cplx : Bool) (axes : List Nat) (shape : List Nat) (bs : List (List ℝ)) (v : List ℝ) :
+    l21Call cplx (some axes) shape (.blk bs) = none ∧
+    l21Call cplx none shape (.blk bs) = some ((bs.map (fun b => l2 cplx (.arr b))).sum) ∧
+    l21Call cplx (some axes) shape (.arr v) = some (l21Axes cplx shape axes v) :=
+  ⟨rfl, by rw [← l21None_block]; rfl, rfl⟩
+
+/-! ### nuclear norm (given the singular values: the SVD is a contract) -/
+
+/-- `NuclearNorm.__call__` is `Σ σ_i` for a 2-D argument and raises otherwise; on the singular values
+    `σ ≥ 0` (`k = min(m, n)` of them): `0 ≤ ‖X‖_*`, `‖X‖_F = sqrt(Σσ²) ≤ ‖X‖_* ≤ sqrt(k)·‖X‖_F` (checked on the
+    real code with the Frobenius norm of `X`), and for a diagonal matrix (`σ = |d|`) it is `‖d‖₁` -/
+theorem C09_nuclear (ndim : Nat) (sv d : List ℝ) (h : ∀ a ∈ sv, 0 ≤ a) :
+    nuclearCall ndim sv = (if ndim = 2 then some sv.sum else none) ∧
+    0 ≤ nuclearOfSv sv ∧
+    Real.sqrt ((sv.map (fun a => a ^ 2)).sum) ≤ nuclearOfSv sv ∧
+    nuclearOfSv sv ≤ Real.sqrt sv.length * Real.sqrt ((sv.map (fun a => a ^ 2)).sum) ∧
+    nuclearOfSv (d.map (fun a => |a|)) = l1 false (.arr d) :=
+  ⟨nuclearCall_eq ndim sv, (nuclear_bounds sv h).1, (nuclear_bounds sv h).2.1, (nuclear_bounds sv h).2.2, nuclear_diag d⟩
+
+example : nuclearCall 2 [(5 : ℝ), 5] = some 10 ∧ nuclearCall 3 [(5 : ℝ), 5] = none := by
+  constructor <;> norm_num [nuclearCall, nuclearOfSv]
+
+/-! ### losses -/
+
+/-- the three squared losses are non-negative for `scale ≥ 0`, `W ≥ 0` (any data, real or complex);
+    for real data and measurements `y ≥ 0`: `SquaredL2AbsLoss(x) ≤ SquaredL2Loss(x)` (reverse triangle inequality,
+    every length); and on block arrays the residual `y − A x` is formed block-wise, which after flattening is
+    the residual of the concatenations (so the value is the documented sum over all entries) -/
+theorem C09_squared_losses (cplx : Bool) {scale : ℝ} (hs : 0 ≤ scale) (w : Option (List ℝ))
+    (hw : ∀ l, w = some l → ∀ a ∈ l, 0 ≤ a) (y ax : List ℝ) :
+    (0 ≤ sqL2Loss cplx scale w y ax ∧ 0 ≤ sqL2AbsLoss cplx scale w y ax ∧ 0 ≤ sqL2SqAbsLoss cplx scale w y ax) ∧
+    ((∀ a ∈ y, 0 ≤ a) → sqL2AbsLoss false scale w y ax ≤ sqL2Loss false scale w y ax) ∧
+    (∀ r c : Arg ℝ, r.shapeEq c → (Arg.zipT (· - ·) r c).flat = List.zipWith (· - ·) r.flat c.flat) :=
+  ⟨sq_losses_nonneg cplx hs w hw y ax, fun hy => sqL2AbsLoss_le_sqL2Loss_real hs w hw y ax hy,
+   fun _ _ h => flat_zipT_sub h⟩
+
+example : sqL2AbsLoss false (1 / 2 : ℝ) (some [2, 1]) [1, 3] [-1, 2] = 1 / 2 := by
+  norm_num [sqL2AbsLoss, wsum, mags, absR]
+example : sqL2Loss false (1 / 2 : ℝ) (some [2, 1]) [1, 3] [-1, 2] = 9 / 2 := by
+  norm_num [sqL2Loss, wsum, sqmags]
+
+/-- `PoissonLoss`: for counts `y > 0`, predictions `A x > 0` and `scale ≥ 0` the value
+    `scale·Σ (Ax − y log Ax + log y!)` is at least its value at `A x = y` (every length) -/
+theorem C09_poisson_min {scale : ℝ} (hs : 0 ≤ scale) (y ax const : List ℝ) (h1 : y.length = ax.length)
+    (h2 : const.length = ax.length) (hy : ∀ a ∈ y, 0 < a) (ha : ∀ a ∈ ax, 0 < a) :
+    poissonLoss scale y y const ≤ poissonLoss scale y ax const :=
+  poissonLoss_min hs y ax const h1 h2 hy ha
+
+example : poissonLoss (1 : ℝ) [2] [2] [0] ≤ poissonLoss (1 : ℝ) [2] [5] [0] :=
+  C09_poisson_min zero_le_one _ _ _ rfl rfl (by simp) (by simp)
+
 /-! ### metrics -/
 
-/-- `mse ≥ 0`; `isnr = snr(ref, restored) − snr(ref, degraded)`;
+/-- `mse ≥ 0` (non-empty images: the mean divides by the number of entries);
+    `isnr = snr(ref, restored) − snr(ref, degraded)`;
     `psnr = snr + 10·log₁₀(range²/var(ref))` (whenever the logarithms' arguments are positive) -/
 theorem C09_metric_identities (cplx : Bool) (r d s : List ℝ) (range : ℝ) :
-    0 ≤ mse cplx r d ∧
+    (0 < (sqmags cplx (List.zipWith (· - ·) r d)).length → 0 ≤ mse cplx r d) ∧
     (0 < var cplx r → 0 < mse cplx r d → 0 < mse cplx r s →
       isnr cplx r d s = snr cplx r s - snr cplx r d) ∧
     (range ≠ 0 → 0 < var false r → 0 < mse false r d →
       psnr r d (some range) = snr false r d + db (range * range / var false r)) :=
-  ⟨mse_nonneg cplx r d, isnr_eq_snr_sub cplx r d s, psnr_eq_snr_add r d range⟩
+  ⟨fun _ => mse_nonneg cplx r d, isnr_eq_snr_sub cplx r d s, psnr_eq_snr_add r d range⟩
 
 /-- `rel_res`: `0` when `‖Ax‖ = ‖b‖ = 0` (the code returns before dividing), otherwise
     `‖b − Ax‖ / max(‖Ax‖, ‖b‖)`, which is the standard `‖b − Ax‖/‖b‖` when `‖Ax‖ ≤ ‖b‖ ≠ 0` -/
@@ -158,5 +303,15 @@ theorem C09_rel_res (cplx : Bool) (ax b : List ℝ) :
   ⟨relRes_zero_den cplx ax b, relRes_eq cplx ax b, relRes_standard cplx ax b⟩
 
 example : relRes false [0, 0] [(0 : ℝ), 0] = 0 := (C09_rel_res false _ _).1 (by simp [sqmags]) (by simp [sqmags])
+
+/-- `mae ≥ 0`; for real images of the same non-zero size `mse = 0` exactly when they are equal; and on block
+    arrays (after 200a606) the metrics are evaluated on `_flatten(reference − comparison)`, which is the
+    difference of the concatenations, so every metric of block arrays is the metric of the concatenations -/
+theorem C09_metric_zero_and_blocks (r c : List ℝ) (hl : r.length = c.length) (hne : r ≠ []) :
+    0 ≤ mae false r c ∧ (mse false r c = 0 ↔ r = c) ∧
+    (∀ R C : Arg ℝ, R.shapeEq C → (Arg.zipT (· - ·) R C).flat = List.zipWith (· - ·) R.flat C.flat) :=
+  ⟨mae_nonneg r c, mse_eq_zero_iff r c hl hne, fun _ _ h => flat_zipT_sub h⟩
+
+example : mse false [1, 2] [(1 : ℝ), 2] = 0 := (C09_metric_zero_and_blocks _ _ rfl (by simp)).2.1.2 rfl
 
 end Scico.Props.C09
